@@ -265,7 +265,7 @@ def jobs(tier):
     for (d, lmin, lmax, v, boundary, out_len, persist) in cfgs:
         cap = (27 if q else 33) if lmax == 2 else 60
         if not boundary:
-            cap -= 18
+            cap = 27 - 18  # both tiers: a cap of 15 on the small no-boundary grids means 17504 paths per run (see C13)
         js.append(Job('resume[d=%d,l=%d-%d,v=%d,%s,out=%d,%s]' % (d, lmin, lmax, v, 'b' if boundary else 'nb', out_len, 'dill' if persist else 'mem'), resume,
                       {'d': d, 'lmin': lmin, 'lmax': lmax, 'version': v, 'boundary': boundary, 'out_len': out_len, 'cap': cap, 'pool': 2 if (q or persist) else 3, 'persist': persist},
                       validate=(5 if q else 2), budget_s=(600 if q else 3000)))
@@ -282,19 +282,19 @@ def jobs(tier):
                       {'d': d, 'lmin': lmin, 'lmax': lmax, 'version': v, 'nrbe': nrbe, 'auto': auto, 'out_len': out_len, 'cap': cap, 'pool': 1 if (q and auto) else 2, 'persist': persist},
                       validate=(5 if q else 2), budget_s=(600 if q else 3000)))
     for (v, boundary) in ([(6, True)] if q else [(6, True), (3, True), (6, False)]):
-        cap = (27 if q else 33) - (0 if boundary else 18)
+        cap = (27 if q else 33) if boundary else 27 - 18
         js.append(Job('resume-reeval[d=2,l=1-2,v=%d,%s]' % (v, 'b' if boundary else 'nb'), resume,
                       {'d': 2, 'lmin': 1, 'lmax': 2, 'version': v, 'boundary': boundary, 'out_len': 1, 'cap': cap, 'pool': 2, 'persist': False, 'reevaluate': True},
                       validate=(5 if q else 2), budget_s=(600 if q else 3000)))
     for (v, boundary, reb) in ([(6, True, False)] if q else [(6, True, False), (6, True, True), (3, False, False)]):
-        cap = (27 if q else 33) - (0 if boundary else 18)
+        cap = (27 if q else 33) if boundary else 27 - 18
         js.append(Job('resume-container[d=2,l=1-2,v=%d,%s,%s]' % (v, 'b' if boundary else 'nb', 'rebal' if reb else 'norebal'), resume,
                       {'d': 2, 'lmin': 1, 'lmax': 2, 'version': v, 'boundary': boundary, 'out_len': 1, 'cap': cap, 'pool': 2, 'persist': False, 'via': 'container'},
                       validate=(5 if q else 2), budget_s=(600 if q else 3000)))
     js.append(Job('resume-container-es[d=2,l=1-2,v=0,nrbe=1,out=1,cap=%d]' % (34 if q else 45), resume_es,
                   {'d': 2, 'lmin': 1, 'lmax': 2, 'version': 0, 'nrbe': 1, 'auto': False, 'out_len': 1, 'cap': 34 if q else 45, 'pool': 2, 'persist': False, 'via': 'container'},
                   validate=(5 if q else 2), budget_s=(600 if q else 3000)))
-    for (d, level, out_len, cap) in ([(2, 1, 1, 14), (2, 2, 2, 30)] if q else [(2, 1, 2, 24), (2, 2, 1, 40), (3, 1, 1, 40)]):
+    for (d, level, out_len, cap) in ([(2, 1, 1, 14), (2, 2, 2, 30)] if q else [(2, 1, 2, 18), (2, 2, 1, 34), (3, 1, 1, 30)]):
         js.append(Job('resume-cell[d=%d,l=%d,out=%d,cap=%d]' % (d, level, out_len, cap), resume_cell, {'d': d, 'level': level, 'out_len': out_len, 'cap': cap, 'pool': 2},
                       validate=(5 if q else 2), budget_s=(600 if q else 3000)))
     return js
